@@ -27,6 +27,7 @@ from yabgp.message.attribute.nlri.ipv6_mpls_vpn import IPv6MPLSVPN
 from yabgp.message.attribute.nlri.ipv4_flowspec import IPv4FlowSpec
 from yabgp.message.attribute.nlri.ipv6_unicast import IPv6Unicast
 from yabgp.message.attribute.nlri.labeled_unicast.ipv4 import IPv4LabeledUnicast
+from yabgp.message.attribute.nlri.labeled_unicast.ipv6 import IPv6LabeledUnicast
 from yabgp.message.attribute.nlri.evpn import EVPN
 from yabgp.message.attribute.nlri.linkstate import BGPLS
 from yabgp.message.attribute.nlri.ipv4_srte import IPv4SRTE
@@ -206,6 +207,14 @@ class MpUnReachNLRI(Attribute):
                         + struct.pack('!H', len(attr_value)) + attr_value
             elif safi == safn.SAFNUM_LAB_VPNUNICAST:
                 nlri = IPv6MPLSVPN.construct(value=value['withdraw'], iswithdraw=True)
+                if nlri:
+                    attr_value = struct.pack('!H', afi) + struct.pack('!B', safi) + nlri
+                    return struct.pack('!B', cls.FLAG) + struct.pack('!B', cls.ID) \
+                        + struct.pack('!H', len(attr_value)) + attr_value
+                else:
+                    return None
+            elif safi == safn.SAFNUM_MPLS_LABEL:
+                nlri = IPv6LabeledUnicast.construct(value.get('withdraw') or [], 'withdraw')
                 if nlri:
                     attr_value = struct.pack('!H', afi) + struct.pack('!B', safi) + nlri
                     return struct.pack('!B', cls.FLAG) + struct.pack('!B', cls.ID) \
